@@ -320,13 +320,16 @@ def r4(ctx: Ctx):
     nexts = [n for n in g.nodes if any(
         isinstance(x, ast.Call) and unparse(x.func) == 'next' and x.args
         and unparse(x.args[0]) == 'self._it' for x in cfgm.node_exprs(n))]
+    # `for x in self._it:` consumes one element per entry into the loop body
+    nexts += [n for n in g.nodes if n.kind == 'for_iter' and unparse(n.ast.iter) == 'self._it']
     if not nexts:
       raise AnalysisError(f'{rule}: {qn} has no next(self._it)')
     inc = lambda n: n.kind == 'stmt' and isinstance(n.ast, ast.AugAssign) and (
         is_self_attr(n.ast.target, '_index') and isinstance(n.ast.op, ast.Add)
         and unparse(n.ast.value) == '1')
     for nx in nexts:
-      starts = [s for s, lab in nx.succ if lab not in ('exc', 'close')]
+      starts = [s for s, lab in nx.succ if lab not in ('exc', 'close')
+                and not (nx.kind == 'for_iter' and lab != 'true')]
       if not starts:
         raise AnalysisError(f'{rule}: {qn}: next() has no normal successor')
       bad = None
@@ -716,6 +719,44 @@ def r10(ctx: Ctx):
       return False
     if all(from_current(c) for c in ctors):
       ctx.ok(rule, fi, f'{ci.name}.shard derives the new state from the current shard', ctors[0])
+      if not any(k.arg == 'parent' for c in ctors for k in c.keywords):
+        # round-robin source (no parent chain): the composed configuration
+        # is decided as a polynomial identity: element i' of sub-shard i of n
+        # taken from shard (j of m) sits at j + m*(i + n*i'), i.e. the new
+        # shard is (j + m*i) of (m*n); the restored position is carried over
+        n += 1
+        cur = next((x.targets[0].id for x in walk_no_nested(fi.node) if isinstance(x, ast.Assign)
+                    and isinstance(x.targets[0], ast.Name) and unparse(x.value) in own), None)
+        pfx = cur if cur is not None else 'self._shard_state'
+        ps = fi.params()
+        j, mm, i_, nn, st0 = af.V('j'), af.V('m'), af.V('i'), af.V('n'), af.V('s')
+        env = {f'{pfx}.shard_index': j, f'{pfx}.num_shards': mm, f'{pfx}.start_index': st0,
+               ps[1]: i_, ps[2]: nn}
+        ev = af.AffEval(env)
+        c = ctors[0]
+        fields = _shardconfig_fields(repo)[0]
+        got = {}
+        try:
+          for f_, a_ in zip(fields, c.args):
+            got[f_] = ev.expr(a_)
+          for k in c.keywords:
+            if k.arg:
+              got[k.arg] = ev.expr(k.value)
+        except af.AffUnsupported as e:
+          raise AnalysisError(f'{rule}: {ci.name}.shard: {e}')
+        want = {'shard_index': j + mm * i_, 'num_shards': mm * nn, 'start_index': st0}
+        wrong = [f_ for f_, w_ in want.items() if f_ not in got or not (got[f_] - w_).is_zero()]
+        if wrong:
+          ctx.fail(rule, fi, f'{ci.name}.shard: (j of m).shard(i, n) == (j + m*i of m*n), position carried',
+                   f'{ci.name}.shard composes the shard configuration as'
+                   f' {dict((f_, repr(got.get(f_))) for f_ in wrong)}; the elements of shard'
+                   ' (j of m) have indices j + m*t, so sub-shard i of n holds the'
+                   ' indices j + m*i + (m*n)*t — shard (j + m*i) of (m*n) — and the'
+                   ' restored start position must be kept: otherwise sub-shards do'
+                   ' not partition their parent or restart from the beginning',
+                   node=c)
+        else:
+          ctx.ok(rule, fi, f'{ci.name}.shard: (j + m*i) of (m*n), start position carried', c)
     else:
       c = next(c for c in ctors if not from_current(c))
       ctx.fail(rule, fi, f'{ci.name}.shard: new shard state derived from the current shard state',
@@ -778,6 +819,16 @@ VARIANTS = [
     B('revert-iterable-subshard', _F,
       '    current = self._shard_state\n    shard_state = ShardConfig(\n        current.shard_index + current.num_shards * shard_index,\n        current.num_shards * num_shards,\n        current.start_index,\n    )\n    return dc.replace(self, _shard_state=shard_state)',
       '    return dc.replace(self, _shard_state=ShardConfig(shard_index, num_shards))', 'R-C09-10'),
+    B('subshard-wrong-radix', _F,
+      '        current.shard_index + current.num_shards * shard_index,',
+      '        current.shard_index * num_shards + shard_index,', 'R-C09-10'),
+    B('subshard-forgets-position', _F,
+      '        current.num_shards * num_shards,\n        current.start_index,\n    )',
+      '        current.num_shards * num_shards,\n    )', 'R-C09-10'),
+    B('skipped-records-not-counted-for-loop', _F,
+      '    while (result := next(self._it)) is _SKIPPED:\n      self._index += 1\n    self._index += 1\n    return result',
+      '    for result in self._it:\n      if result is _SKIPPED:\n        continue\n      self._index += 1\n      return result\n    raise StopIteration()',
+      'R-C09-4'),
     B('seq-idxs-not-cumulative', 'utils/iter_utils.py',
       '    self._seq_idxs.extend(itt.accumulate(map(len, self._sequences), op.add))',
       '    self._seq_idxs.extend(map(len, self._sequences))', 'R-C09-7'),
